@@ -158,6 +158,28 @@ def run_kani(harnesses, timeout_s, tag, jobs=None, playback=False):
     return results, raw, wall
 
 
+def rerun_lost(results, raw, names, byname, tmax, tag, jobs):
+    """kani-driver 0.68 can panic while parsing CBMC's output (`missing field sourceLocation / description`, seen
+    when a CBMC process is killed by the memory limit): the whole batch then loses its JSON export and the harnesses
+    that were still running lose their verdict. Re-run every harness left without a verdict on its own (a fresh
+    driver each, in parallel), so that one bad harness cannot take the others with it."""
+    lost = [h for h in names if results[h]["status"] == "NO_RESULT"]
+    if not lost or "panicked at kani-driver" not in raw or len(names) == 1:
+        return results
+    log(f"kani-driver crashed; re-running {len(lost)} harness(es) without a verdict one by one")
+    from concurrent.futures import ThreadPoolExecutor
+
+    def one(h):
+        r, _, _ = run_kani([h], tmax, f"{tag}-solo-{byname[h]['fn']}", jobs=1)
+        return h, r[h]
+
+    with ThreadPoolExecutor(max_workers=max(1, min(jobs, len(lost)))) as ex:
+        for h, r in ex.map(one, lost):
+            r["note"] = (r.get("note", "") + " (re-run alone after a kani-driver crash)").strip()
+            results[h] = r
+    return results
+
+
 def parse_results(harnesses, out_json, raw):
     res = {h: {"harness": h, "status": "NO_RESULT", "failed": [], "covers": {}, "stats": {}, "functions": [],
                "duration_s": None, "n_checks": 0} for h in harnesses}
@@ -339,7 +361,13 @@ def native_replay(bins, fn_name, vals):
     arg = ",".join("%02x" % (v[0] if v else 0) for v in vals)
     out = {}
     for prof, b in bins.items():
-        p = subprocess.run([b, fn_name, arg], stdout=subprocess.PIPE, stderr=subprocess.STDOUT, text=True, timeout=120)
+        try:
+            p = subprocess.run([b, fn_name, arg], stdout=subprocess.PIPE, stderr=subprocess.STDOUT, text=True, timeout=20)
+        except subprocess.TimeoutExpired:
+            # the natively compiled real code does not return on this input: an unbounded loop (C20 class)
+            out[prof] = {"failed": [], "panic": "HANG: no result within 20 s (unbounded loop)", "assume_violated": False,
+                         "rc": -1, "stdout": ""}
+            continue
         failed = re.findall(r"^FAILED (.*)$", p.stdout, re.M)
         pm = re.search(r"^PANIC (.*)$", p.stdout, re.M)
         out[prof] = {"failed": failed, "panic": pm.group(1) if pm else None, "assume_violated": p.returncode == 3,
@@ -436,6 +464,7 @@ def do_check(prop, tier, seed, only=None, write_evidence=True):
         log(f"{prop} {tier}: {len(names)} harnesses, -j {min(jobs, len(names))}, per-harness timeout {tmax}s, "
             f"{_MEM['kb'] // 1000} MB per solver process")
         results, raw, wall = run_kani(names, tmax, f"{prop}-{tier}", jobs=jobs)
+        results = rerun_lost(results, raw, names, byname, tmax, f"{prop}-{tier}", jobs)
         known = load_known()
         bins = None
         violations, known_hits, inconclusive, holds = [], [], [], []
@@ -700,6 +729,7 @@ def do_run(names, timeout=900):
             names = [r["fn"] for r in reg if rx.search(r["fn"]) and not r.get("sampled")]
         full = [by[n]["harness"] if n in by else n for n in names]
         results, raw, wall = run_kani(full, timeout, "adhoc")
+        results = rerun_lost(results, raw, full, {h: {"fn": h.split("::")[-1]} for h in full}, timeout, "adhoc", JOBS)
         for h in sorted(full, key=lambda h: results[h]["duration_s"] or 1e9):
             e = results[h]
             v, why = classify(e)
